@@ -4,6 +4,8 @@ import PdshVerif.Exec.EndToEnd
 import PdshVerif.Exec.Ssh
 import PdshVerif.Exec.Spec
 import PdshVerif.Exec.XrcmdSpec
+import PdshVerif.Exec.XrcmdErr
+import PdshVerif.Gen.Dsh
 import PdshVerif.Opt.Rcmd
 import PdshVerif.Opt.RcmdSpec
 import PdshVerif.Opt.RcmdUser
@@ -65,6 +67,7 @@ structure RegCase where
   cfg : Opt.Rcmd.Cfg
   words : List Opt.Rcmd.Word
   targets : List (List Char)
+  earlierL : List (List Char) := []     -- ls=: the -l options before the last one, in order
 
 def parseWord (s : String) : Option Opt.Rcmd.Word :=
   match s.splitOn "/" with
@@ -85,6 +88,7 @@ def parseReg : List String → RegCase → Option RegCase
         else if k = "env" then (parseOpt v).map fun o => { c with cfg := { c.cfg with envType := o } }
         else if k = "R" then (parseOpt v).map fun o => { c with cfg := { c.cfg with optR := o } }
         else if k = "l" then (parseOpt v).map fun o => { c with cfg := { c.cfg with optL := o } }
+        else if k = "ls" then (parseList v).map fun l => { c with earlierL := l }
         else if k = "luser" then (Hex.decodeToChars v).map fun u => { c with cfg := { c.cfg with luser := u } }
         else if k = "T" then (parseList v).map fun l => { c with targets := l }
         else if k = "W" then (parseWord v).map fun w => { c with words := c.words ++ [w] }
@@ -95,7 +99,7 @@ def parseReg : List String → RegCase → Option RegCase
     | _ => none
 
 def emptyCase : RegCase :=
-  ⟨⟨[], Gen.MO_RCMD_RANK_LIST.map String.toList, none, none, none, []⟩, [], []⟩
+  ⟨⟨[], Gen.MO_RCMD_RANK_LIST.map String.toList, none, none, none, []⟩, [], [], []⟩
 
 def showLines (ls : List Opt.Rcmd.Line) : String :=
   "ok" ++ String.join (ls.map fun l =>
@@ -106,7 +110,7 @@ def regModel (re : Bool) (toks : List String) : String :=
   match parseReg toks emptyCase with
   | none => "bad-op"
   | some c =>
-    match Opt.Rcmd.runChecked (some Gen.MO_LOGIN_NAME_MAX) re c.cfg c.words c.targets with
+    match Opt.Rcmd.runCheckedAll (some Gen.MO_LOGIN_NAME_MAX) re c.cfg c.earlierL c.words c.targets with
     | .fatal => "fatal"
     | .lines ls => showLines ls
 
@@ -118,6 +122,7 @@ def regModel (re : Bool) (toks : List String) : String :=
 structure CliCase where
   cfg : Opt.Rcmd.Cfg
   evs : List Opt.Exclude.Ev
+  earlierL : List (List Char) := []
 
 def parseCli : List String → CliCase → Option CliCase
   | [], c => some c
@@ -129,6 +134,7 @@ def parseCli : List String → CliCase → Option CliCase
         else if k = "env" then (parseOpt v).map fun o => { c with cfg := { c.cfg with envType := o } }
         else if k = "R" then (parseOpt v).map fun o => { c with cfg := { c.cfg with optR := o } }
         else if k = "l" then (parseOpt v).map fun o => { c with cfg := { c.cfg with optL := o } }
+        else if k = "ls" then (parseList v).map fun l => { c with earlierL := l }
         else if k = "luser" then (Hex.decodeToChars v).map fun u => { c with cfg := { c.cfg with luser := u } }
         else if k = "E" then
           match v.splitOn ":" with
@@ -142,7 +148,7 @@ def parseCli : List String → CliCase → Option CliCase
     | _ => none
 
 def regCli (toks : List String) : String :=
-  match parseCli toks ⟨⟨[], Gen.MO_RCMD_RANK_LIST.map String.toList, none, none, none, []⟩, []⟩ with
+  match parseCli toks ⟨⟨[], Gen.MO_RCMD_RANK_LIST.map String.toList, none, none, none, []⟩, [], []⟩ with
   | none => "bad-op"
   | some c =>
     let hcfg : Hostlist.Cfg := { Hostlist.Cfg.probed with fixPushLoop := true, fix2Br := true }
@@ -159,7 +165,7 @@ def regCli (toks : List String) : String :=
     | some words =>
       match Opt.Exclude.cliFinal hcfg xenv c.evs with
       | .ok targets =>
-        match Opt.Rcmd.runChecked (some Gen.MO_LOGIN_NAME_MAX) false c.cfg words targets with
+        match Opt.Rcmd.runCheckedAll (some Gen.MO_LOGIN_NAME_MAX) false c.cfg c.earlierL words targets with
         | .fatal => "fatal"
         | .lines ls => showLines ls
       | .nohosts => "fatal"
@@ -180,6 +186,7 @@ def regSpec (toks : List String) : String :=
     let ls := Opt.Rcmd.Spec.expectedLines c.cfg c.words c.targets
     if !wordsOk then "nodomain"
     else if Opt.Rcmd.userTooLong Gen.MO_LOGIN_NAME_MAX c.cfg c.words then "nodomain"
+    else if c.earlierL.any (fun u => decide (u.length > Gen.MO_LOGIN_NAME_MAX)) then "nodomain"
     else if (match dfl with | some d => !c.cfg.loaded.contains d | none => false) then "nodomain"
     else if ls.any (·.rtype.isNone) then "nodomain"
     else showLines ls
@@ -318,6 +325,18 @@ def stepModel (v : Variant) (re : Bool) (sshEsc : Bool) (line : String) : String
   | "reg" :: rest => regModel re rest
   | "regcli" :: rest => regCli rest
   | "xr" :: rest => xrModel rest
+  | "xe" :: bs :: rest =>
+    -- xe REPLYHEX [old]: the text xrcmd hands to err() when the peer refuses (Exec/XrcmdErr.lean, buffer of
+    -- Gen.LINEBUFSIZE bytes); `old` = the copy loop before e2d5199
+    match (if bs = "-" then some [] else Hex.decodeToChars bs) with
+    | some (c :: tail) =>
+      if c = nul then "err ~"
+      else
+        match XrcmdErr.errText (!rest.contains "old") Gen.LINEBUFSIZE c tail with
+        | some t => "err " ++ hx (t.takeWhile (· ≠ nul))
+        | none => "ub"
+    | some [] => "err ~"
+    | none => "bad-op"
   | _ => "bad-op"
 
 def stepSpec (line : String) : String :=
